@@ -1666,11 +1666,11 @@ class PyCdlib:
                     if enc.platform_id == 0xef:
                         if num_seen_efi == 0:
                             self.isohybrid_mbr.update_efi(current_extent,
-                                                          entry.sector_count,
+                                                          enc.entry.sector_count,
                                                           self.pvd.space_size * self.logical_block_size)
                         elif num_seen_efi == 1:
                             self.isohybrid_mbr.update_mac(current_extent,
-                                                          entry.sector_count)
+                                                          enc.entry.sector_count)
                         else:
                             raise pycdlibexception.PyCdlibInternalError('Only expected two EFI sections')
                         num_seen_efi += 1
